@@ -336,6 +336,37 @@ def systematic_rep_programs():
             tops.append(("def", f"def{M1}fn0({O0}){O0}:", w(leafs(sq))))
             tops += split_chains(leafs(sq[1:]) + [("leaf", f"fn0({O0})", ("plain",))])
         progs.append(tops)
+    # every statement of the pool twice in a row and once more after another statement - in setup, in the main loop, in a function
+    pool = list(dict.fromkeys(REP_POOL))
+    seq = []
+    for i, t in enumerate(pool):
+        seq += leafs([t, t, pool[(i + 1) % len(pool)], t])
+    for place in range(3):
+        tops = _prelude_tops(REP_PRELUDE)
+        if place == 0:
+            tops += split_chains(seq)
+        elif place == 1:
+            tops.append(("main", f"while{M1}True{O0}:", seq))
+        else:
+            tops.append(("def", f"def{M1}fn0({O0}){O0}:", seq))
+            tops += split_chains([("leaf", f"fn0({O0})", ("plain",))])
+        progs.append(tops)
+    # the same COMPOUND statement twice in a row (same header, same body), each block kind, in setup and in the main loop
+    inner = leafs([a, c])
+    twice = []
+    for blk in ([("block", "if", f"if{M1}x{O1}>{O1}1{O0}:", inner)],
+                [("block", "if", f"if{M1}x{O1}>{O1}1{O0}:", inner), ("block", "else", f"else{O0}:", leafs([b]))],
+                [("block", "for", f"for{M1}i0{M1}in{M1}range({O0}2{O0}){O0}:", inner)],
+                [("block", "while", f"while{M1}x{O1}<{O1}2{O0}:", inner + [("leaf", f"x{O1}+={O1}1", ("rep", "x += 1"))])],
+                [("block", "try", f"try{O0}:", inner), ("block", "except", f"except{O0}:", leafs([b]))]):
+        twice += blk + blk
+    for place in range(2):
+        tops = _prelude_tops(REP_PRELUDE)
+        if place == 0:
+            tops += split_chains(twice)
+        else:
+            tops.append(("main", f"while{M1}True{O0}:", twice))
+        progs.append(tops)
     return progs
 
 
